@@ -211,6 +211,8 @@ def field_obj(name):
         return verif.field.Pit()
     if name.startswith("other"):
         return verif.field.Other(name)
+    if name.startswith("ens"):
+        return verif.field.Ensemble(int(name[3:]))
     raise KeyError(name)
 
 
@@ -247,6 +249,9 @@ def mem_input(spec, name):
     m.obs = arr(spec["fields"]["obs"]) if "obs" in spec["fields"] else None
     m.fcst = arr(spec["fields"]["fcst"]) if "fcst" in spec["fields"] else None
     m.pit = arr(spec["fields"]["pit"]) if "pit" in spec["fields"] else None
+    ens = sorted((int(k[3:]), k) for k in spec["fields"] if k.startswith("ens"))
+    if ens:
+        m.ensemble = np.stack([arr(spec["fields"][k]) for _, k in ens], axis=3)
     m._other = {k: arr(v) for k, v in spec["fields"].items() if k.startswith("other")}
     m.other_fields = sorted(m._other)
     return m
@@ -336,6 +341,8 @@ def coq_list(items):
 
 
 def coq_field(name):
+    if name.startswith("ens"):
+        return "(FOther %d)" % (100 + int(name[3:]))      # ensemble member m is modelled as one more per-input array
     return {"obs": "FObs", "fcst": "FFcst", "pit": "FPit"}.get(name) or "(FOther %d)" % int(name[5:])
 
 
